@@ -193,9 +193,12 @@ KindFitsPlace(st) == \A k \in DOMAIN st.all : LET o == st.all[k] p == st.objs[o]
      /\ (IsModCls(Cls(st, o)) /\ p # NoObj) => Cls(st, p) = "Package"
      /\ (~IsModCls(Cls(st, o))) => p # NoObj
      /\ (p # NoObj) => Cls(st, p) \in {"Package", "Module", "Class"}          \* functions / attributes have no children
+\* the parent of a registered object is registered too (an older definition that lost its key would leave its members orphans)
+ParentRegistered(st) == \A k \in DOMAIN st.all : LET p == st.objs[st.all[k]].par IN p # NoObj => Registered(st, p)
 NoCrash(st) == ~st.crash
 RegistryOK(st) == /\ NoCrash(st) /\ KeysAreCurrentNames(st) /\ OneKeyPerObject(st) /\ EntryOfParent(st)
                   /\ ContentsPointBack(st) /\ ContentsRegistered(st) /\ ReachableFromRoot(st) /\ KindFitsPlace(st)
+                  /\ ParentRegistered(st)
 FailedRegistryInvs(st) ==
      (IF NoCrash(st) THEN {} ELSE {"NoCrash"})
 \cup (IF KeysAreCurrentNames(st) THEN {} ELSE {"KeysAreCurrentNames"})
@@ -205,4 +208,5 @@ FailedRegistryInvs(st) ==
 \cup (IF ContentsRegistered(st) THEN {} ELSE {"ContentsRegistered"})
 \cup (IF ReachableFromRoot(st) THEN {} ELSE {"ReachableFromRoot"})
 \cup (IF KindFitsPlace(st) THEN {} ELSE {"KindFitsPlace"})
+\cup (IF ParentRegistered(st) THEN {} ELSE {"ParentRegistered"})
 =============================================================================
